@@ -353,6 +353,8 @@ class Matrix(Qube):
                 new_mask = Qube.or_(self._mask_, mask)
             else:
                 new_mask = self._mask_
+        else:
+            new_mask = self._mask_
 
         # Invert the array
         with warnings.catch_warnings():
